@@ -36,19 +36,21 @@ RULE = ("args unchanged by loads/dumps/validate/find* (deep snapshots, judged by
 
 PURE = ["loads", "dumps", "validate", "find", "findall", "findunique", "findkey"]
 CORE = ["loads", "dumps", "validate", "findall"]
-ALLDOCS = [1, 2, 3, 4, 5, 6, 7, 8, 9, 10]
+ALLDOCS = [1, 2, 3, 4, 5, 6, 7, 8, 9, 10, 11, 12, 13, 14]
 BUILD = os.path.join(common.VERIF, "build")
 RUN = "%d" % os.getpid()        # run directories and scratch files are private to this run (two C12 runs may overlap)
 
 
 def calls_cfg(threads, policy, kinds, docs, maxcalls, maxper, clears=True, keyv=True, lower=True, finds=False,
-              inccache="none", fmtcopy=True, cdictnew=True, incresolve="join", record=False, mode="free",
+              inccache="none", fmtcopy=True, cdictnew=True, incresolve="join", deptharg=True, expglobal=False,
+              typesroot=False, record=False, mode="free",
               invs=("SeqEquivalent", "TypeOK", "CwdRestored"), props=("ArgsUnchanged",)):
     return tlc.cfg_text(constants={
         "Threads": set(threads), "Policy": policy, "Mode": mode, "Kinds": set(kinds), "Docs": set(docs),
         "MaxCalls": maxcalls, "MaxPerThread": maxper, "ClearsBuf": clears, "KeyByVersion": keyv,
         "LowerOnCopy": lower, "FindInserts": finds, "IncCache": inccache, "FormatOnCopy": fmtcopy,
-        "CdictRebuilt": cdictnew, "IncResolve": incresolve,
+        "CdictRebuilt": cdictnew, "IncResolve": incresolve, "DepthInArg": deptharg, "ExpCacheGlobal": expglobal,
+        "TypesRoot": typesroot,
         "Record": record}, invariants=list(invs), properties=list(props))
 
 
@@ -80,6 +82,12 @@ NEGATIVES = [
                                     cdictnew=False), "SeqEquivalent"),
     ("neg_include_via_chdir", dict(threads=[1, 2], policy="fresh", kinds=["loads"], docs=[7, 8, 9], maxcalls=2, maxper=1,
                                    incresolve="chdir"), "SeqEquivalent"),
+    ("neg_include_depth_on_parser", dict(threads=[1], policy="shared_all", kinds=["loads"], docs=[7, 11, 12, 13], maxcalls=2,
+                                         maxper=2, deptharg=False), "SeqEquivalent"),
+    ("neg_schema_cache_process_wide", dict(threads=[1, 2], policy="fresh", kinds=["validate", "dumps"], docs=[4, 5], maxcalls=2,
+                                           maxper=1, expglobal=True), "SeqEquivalent"),
+    ("neg_validate_types_root", dict(threads=[1], policy="fresh", kinds=["validate"], docs=[4, 14], maxcalls=2, maxper=2,
+                                     typesroot=True), "ArgsUnchanged"),
     ("neg_format_in_place", dict(threads=[1], policy="fresh", kinds=["dumps"], docs=[1, 4], maxcalls=2, maxper=2,
                                  fmtcopy=False), "ArgsUnchanged"),
     ("neg_lower_in_place", dict(threads=[1], policy="fresh", kinds=["validate"], docs=[4, 5], maxcalls=2, maxper=2,
@@ -101,6 +109,8 @@ def pick_seams(desc, n, doctable, rng):
         hot = [p for p in pcs if p in ("lex2", "lex3", "cdict", "assign")]
         if hot:
             must = [rng.choice(hot)]
+    if desc["kind"] == "validate" and desc["ver"] and n >= 2:
+        must.append(rng.choice(["prune1", "prune2"]))      # in the middle of the in-place pruning of the cached schema
     if "iresolve" in pcs and n >= 2:
         must.append("iresolve")        # inside the include step: path resolution is where process-wide state matters
     rest = [p for p in pcs if p not in must]
@@ -206,10 +216,13 @@ def run(tier):
     t0 = time.time()
     nproc = max(4, min(14, (os.cpu_count() or 8) - 2))
     pool = multiprocessing.get_context("fork").Pool(nproc)       # forked before any thread exists
+    # processes that stay untouched until the cold-start run: nothing validated or printed in them
+    cold = multiprocessing.get_context("fork").Pool(3)
     try:
-        return _run(ck, seed, quick, pool, nproc, t0)
+        return _run(ck, seed, quick, pool, nproc, t0, cold)
     finally:
         pool.terminate()
+        cold.terminate()
         cleanup()
 
 
@@ -226,7 +239,7 @@ def cleanup():
                 pass
 
 
-def _run(ck, seed, quick, pool, nproc, t0):
+def _run(ck, seed, quick, pool, nproc, t0, cold):
     rng = random.Random(seed)
     os.makedirs(BUILD, exist_ok=True)
     phases = {}
@@ -259,6 +272,7 @@ def _run(ck, seed, quick, pool, nproc, t0):
     root = os.path.join(BUILD, "c12_%s_files" % RUN)
     L.write_files(L.build_docs(doctable, seed, 2, root), root)
     env_job = {"seed": seed, "doctable": doctable, "root": root}
+    cold_async = [cold.apply_async(L.task_cold, (dict(env_job, focus=i, variant=(seed + i) % 2),)) for i in range(3)]
 
     # ---- (G) histories for re-use, schedules (first: the worker processes wait for them)
     nh = 150 if quick else 3000
@@ -277,7 +291,7 @@ def _run(ck, seed, quick, pool, nproc, t0):
     model_jobs = {"purity_model(1 thread, 3 calls, all kinds incl. the two mutating ones)": ex.submit(
         run_calls, "purity_model", calls_cfg([1], "fresh", PURE + ["dumps_sep", "validate_addc"], [1, 4, 5, 7], 3, 3), None, 2, tmo)}
     if quick:
-        model_jobs["fresh_2threads"] = ex.submit(run_calls, "fresh2", calls_cfg([1, 2], "fresh", PURE, [1, 3, 4, 5, 7, 8, 9, 10], 2, 1),
+        model_jobs["fresh_2threads"] = ex.submit(run_calls, "fresh2", calls_cfg([1, 2], "fresh", PURE, [1, 3, 4, 5, 7, 8, 9, 10, 12, 14], 2, 1),
                                                  None, 4, tmo)
         model_jobs["reuse_4calls"] = ex.submit(run_calls, "reuse4", calls_cfg([1], "shared_all", PURE, ALLDOCS, 4, 4),
                                                None, 2, tmo)
@@ -409,7 +423,10 @@ def _run(ck, seed, quick, pool, nproc, t0):
     for b in rep["bad"]:
         r = by_tid[b["tid"]]
         case = cases.get(b["tid"], {})
-        ck.violation("C12|purity|%s|%s" % (r["fn"] if r["fn"] in PURE else r["call"], b["clause"]),
+        cls = r.get("cls") or ""
+        if cls and r["outcome"] != "ok":
+            cls += "+raised"            # the call raised and changed its argument (distinct from a silent change)
+        ck.violation("C12|purity|%s|%s%s" % (r["fn"] if r["fn"] in PURE else r["call"], cls + "|" if cls else "", b["clause"]),
                      "%s changed its argument (%s): %s on %s" % (r["fn"], r["diff"], case.get("call", r["fn"]), r["doc"]),
                      {"part": "purity", "record": r, "case": case})
     ck.count(len(records))
@@ -429,9 +446,10 @@ def _run(ck, seed, quick, pool, nproc, t0):
 
     mark("purity_judged")
     # ---- collect re-use
-    nreuse, classes = 0, set()
+    nreuse, classes, refdig = 0, set(), {}
     for j in reuse_async:
         res = j.get(1800 if quick else 7200)
+        refdig.update(res["refdig"])
         cpu["reuse"] += res["cpu"]
         nreuse += res["n"]
         classes |= {tuple(c) for c in res["classes"]}
@@ -464,6 +482,22 @@ def _run(ck, seed, quick, pool, nproc, t0):
                                    "schedule": sched_key(sched_jobs[0][2]["scheds"][0]) if sched_jobs else None}})
 
     mark("schedules_done")
+    # ---- collect the cold-start runs
+    ncold = 0
+    for a in cold_async:
+        res = a.get(1800 if quick else 7200)
+        cpu["stress"] += res["cpu"]
+        ncold += res["n"]
+        if res["stuck"]:
+            raise common.MachineryFailure("cold-start threads did not finish")
+        for sig, what, case in res["viol"]:
+            ck.violation(sig, what, case)
+        for k, dg in res["seqdig"].items():
+            if k in refdig and refdig[k] != dg:
+                ck.violation("C12|stress|%s|after-cold-start" % k.split("/")[0],
+                             "a sequential call (%s) made after the concurrent cold-start phase differs from the same call "
+                             "in another process" % k, {"part": "stress-cold", "key": k})
+    ck.count(ncold)
     # ---- collect stress
     stress_counts = {}
     for a in stress_async:
@@ -484,7 +518,7 @@ def _run(ck, seed, quick, pool, nproc, t0):
         "reuse_histories": len(hists), "reuse_calls": nreuse, "reuse_call_classes": len(classes),
         "scripts": len(scripts), "forced_schedules": nsched,
         "schedules_per_script": {str(k): len(v) for k, v in by_sid.items()},
-        "stress_calls": stress_counts, "stress_threads": 16, "stress_seconds": secs,
+        "stress_calls": stress_counts, "cold_start_calls": ncold, "stress_threads": 16, "stress_seconds": secs,
         "negative_configs_rejected": [n for n, _, _ in NEGATIVES],
         "phase_done_at_s": dict(phases, stress_done=round(time.time() - t0, 1)),
         "cpu_s": {k: round(v, 1) for k, v in cpu.items()}, "tlc_wall_s": round(sum(t.get("wall_s", 0) for t in ck.tlc), 1),
